@@ -121,6 +121,34 @@ C03_PaidInAskDenom_Step ==
     \A r \in st'.coins :
       (r.a \notin Sg /\ r.a # ModFeePool /\ r.n > CoinBal(st, r.a, r.d)) => r.d \in AskDenomsOf(r.a)
 
+\* ... judged against what the SELLER asked for, not against the market column the code copied: an order
+\* created by Sell carries exactly the batch, quantity, ask denomination, ask amount and auto-retire flag of
+\* its entry and belongs to the signer; afterwards only an update by its seller changes the ask (seeded
+\* change C03-i stores the first entry's market for a later entry of the same batch)
+OrderAskDenom(s, o) == IF HasMarketId(s, o.mid) THEN MarketById(s, o.mid).denom ELSE "?"
+C03_AskAsRequested_Step ==
+  /\ EvIs("Sell") =>
+       /\ "sell_order_ids" \in DOMAIN ev'.resp
+       /\ Len(ev'.resp.sell_order_ids) = Len(ev'.m.orders)
+       /\ \A i \in DOMAIN ev'.m.orders :
+            LET e == ev'.m.orders[i]  id == ev'.resp.sell_order_ids[i] IN
+            /\ HasOrder(st', id) /\ ~HasOrder(st, id)
+            /\ LET o == OrderById(st', id) IN
+               /\ o.seller = ev'.m.seller /\ o.qty = e.qty /\ o.ask = e.ask_amt /\ o.dar = e.dar
+               /\ OrderAskDenom(st', o) = e.ask_denom
+               /\ HasBatchDenom(st', e.denom) /\ BatchByDenom(st', e.denom).key = o.bk
+  /\ \A o \in st'.orders :
+       HasOrder(st, o.id) =>
+         LET old == OrderById(st, o.id)
+             ups == IF EvIs("UpdateSellOrders")
+                    THEN {i \in DOMAIN ev'.m.updates : ev'.m.updates[i].id = o.id}
+                    ELSE {}
+         IN /\ o.seller = old.seller /\ o.bk = old.bk
+            /\ IF ups = {} THEN o.ask = old.ask /\ OrderAskDenom(st', o) = OrderAskDenom(st, old) /\ o.dar = old.dar
+               ELSE \E i \in ups : o.ask = ev'.m.updates[i].ask_amt /\ OrderAskDenom(st', o) = ev'.m.updates[i].ask_denom
+                                      /\ o.dar = ev'.m.updates[i].dar
+C03_AskAsRequested_Prop == [][C03_AskAsRequested_Step]_vars
+
 C03_Block_Step == IsBlockEv(ev') => st'.coins = st.coins /\ st'.csupply = st.csupply
 
 C03_Credits_Prop == [][C03_Credits_Step]_vars
